@@ -169,7 +169,7 @@ static uint64_t boundary(unsigned i)
 	}
 	return UINT64_MAX;
 }
-static uint64_t n_random(void) { return vf_thorough ? 2000000 : 40000; }
+static uint64_t n_random(void) { return vf_thorough ? 2000000 : 200000; }
 
 uint64_t vf_cases(void) { return (uint64_t) NB * 10 + n_random(); }
 
